@@ -923,8 +923,8 @@ func (r *Runner) runPar(ctx context.Context, st *Stack, b *Base, op Op) {
 					lastW, lastA, _ = b.RawFetch.FetchAccount(ctx, fmt.Sprintf("W1/rt-%s-0", tag))
 				} else if lastW != nil && lastA != nil {
 					_ = b.Fetcher.AddAccount(ctx, lastW, lastA)
-					if n%8 == 0 {
-						time.Sleep(20 * time.Microsecond)
+					if n%64 == 0 {
+						runtime.Gosched()
 					}
 				}
 				n++
